@@ -78,7 +78,7 @@ Proof.
   - rewrite (lookup_rev_dlookup id d D).
     repeat (apply andb_true_iff in S as [S ?]).
     repeat match goal with Hn : is_nil _ = true |- _ => apply is_nil_true in Hn; subst end.
-    apply is_nil_true in S. subst.
+    try (apply is_nil_true in S; subst).
     destruct (dlookup id d); [|reflexivity]. unfold check_constraints. simpl. destruct (g_inst_constraints g); reflexivity.
 Qed.
 
